@@ -211,7 +211,7 @@ const (
 type Rule struct {
 	Target string `json:"target"` // instance id
 	At     string `json:"at"`
-	Action string `json:"action"` // "substitute"
+	Action string `json:"action"` // "substitute" | "self" (beforeInst only: answer with the registered instance itself)
 	Sub    string `json:"sub"`    // substitute slot name: rules that share Sub return the same object
 	// SubType: type of the substitute object ("" = the component's own type). A wrapper of
 	// another type may implement interfaces the component itself does not.
